@@ -193,6 +193,8 @@ pub fn head(e: &dyn std::fmt::Display) -> String {
 pub enum Got {
     /// `Ok(handle)`; the closure calls the function once
     Handle(Box<dyn FnOnce()>),
+    /// `Ok(handle)` of a probe that never calls (depth-2 table)
+    HandleOnly,
     /// `Err(e)`: the rendered error
     Refused(String),
 }
@@ -255,7 +257,7 @@ impl<F: SigNoCall> Probe for Q<F> {
         match pkg.get_function::<F>(name) {
             Ok(f) => {
                 drop(f);
-                Got::Handle(Box::new(|| ()))
+                Got::HandleOnly
             }
             Err(e) => Got::Refused(head(&e)),
         }
